@@ -122,7 +122,7 @@ class Not(qcore.Query):
         yield self.query
 
     def apply(self, fn):
-        return self.__class__(fn(self.query))
+        return self.__class__(fn(self.query), boost=self.boost)
 
     def normalize(self):
         q = self.query.normalize()
